@@ -81,10 +81,6 @@ def Core.withBudgets (r : Core) (b : List Nat) : Cfg := { ctl := r.ctl, k := r.k
 
 /-! ### scopes -/
 
-def keyIsName : Val → Name → Bool
-  | .str s, n => s == n
-  | _, _ => false
-
 def scopeFind (h : Heap) (addr : Nat) (n : Name) : Option Val :=
   match h.get? addr with
   | some (.dict kvs) => (kvs.find? (fun kv => keyIsName kv.1 n)).map (·.2)
@@ -97,10 +93,6 @@ def lookupName (h : Heap) (scopes : List Nat) (n : Name) : Option Val :=
   | a :: rest => match scopeFind h a n with
     | some v => some v
     | none => lookupName h rest n
-
-def kvSet : List (Val × Val) → Name → Val → List (Val × Val)
-  | [], n, v => [(.str n, v)]
-  | (k, v') :: r, n, v => if keyIsName k n then (k, v) :: r else (k, v') :: kvSet r n v
 
 /-- `ScopedDict.__setitem__`: write to the top scope -/
 def writeTop (h : Heap) (scopes : List Nat) (n : Name) (v : Val) : Option Heap :=
